@@ -135,13 +135,13 @@ Proof.
     destruct (varargs so) as [va|], (varkwargs so) as [vk|]; cbn [Annot.Eo option_map isSome];
       destruct (h_args h || h_varargs h), (h_kwargs h), (h_varkwargs h); cbn [orb];
       destruct pm as [pobj|]; cbv beta iota; rewrite ?names_of_E;
-      (match goal with |- bind (mask_names _ _ ?st' _) _ = res_map _ (bind (mask_names _ _ ?st _) _) =>
-         change st' with (Ek st) end;
+      (match goal with |- bind (mask_names ?a ?b _ ?c) ?F = res_map ?hh (bind (mask_names _ _ ?st _) ?G) =>
+         change (bind (mask_names a b (Ek st) c) F = res_map hh (bind (mask_names a b st c) G)) end;
        rewrite mask_names_E;
        match goal with |- bind (res_map Ek ?M) _ = _ => destruct M as [st1|e] end;
        [cbn [bind res_map Ek k_pok k_va k_kwo k_src];
-        match goal with |- apply_params _ ?x' = res_map _ (apply_params _ ?x) =>
-          change x' with (ES x) end;
+        match goal with |- apply_params ?b' _ = res_map ?hh (apply_params ?b ?x) =>
+          change (apply_params b' (ES x) = res_map hh (apply_params b x)) end;
         apply (apply_params_E rho)
        | reflexivity]).
   - destruct (h_args h); [reflexivity|]. destruct (Nat.eqb n 0); [reflexivity|].
@@ -159,3 +159,685 @@ Theorem sig_partial_E s n kw pobj :
   sig_partial (eagerize rho s) n kw pobj = res_map (eagerize rho) (sig_partial s n kw pobj).
 Proof. apply mask_gen_E. Qed.
 End TwinAny.
+
+(* ------------------------------------------------------------------ *)
+(* Part B — embed, forwards, discovery: rho injective                  *)
+Section TwinInj.
+Variable rho : N -> N.
+Hypothesis rho_inj : injective rho.
+Notation E := (eagerize_param rho).
+Notation ES := (Annot.ES rho).
+Notation Eo := (Annot.Eo rho).
+
+Lemma od_update2_E a b :
+  od_update (od_update [] (map E a)) (map E b) = map E (od_update (od_update [] a) b).
+Proof. change (@nil param) with (map E (@nil param)) at 1. rewrite !(od_update_E rho). reflexivity. Qed.
+
+Lemma embed_step_E outer inner uva uvk depth :
+  embed_step (ES outer) (ES inner) uva uvk depth = res_map ES (embed_step outer inner uva uvk depth).
+Proof.
+  unfold embed_step.
+  change (posargs (ES outer)) with (map E (posargs outer)).
+  change (pokargs (ES outer)) with (map E (pokargs outer)).
+  change (kwoargs (ES outer)) with (map E (kwoargs outer)).
+  change (varargs (ES outer)) with (Eo (varargs outer)).
+  change (varkwargs (ES outer)) with (Eo (varkwargs outer)).
+  change (ssrc (ES outer)) with (ssrc outer). change (sdep (ES outer)) with (sdep outer).
+  rewrite !opt_if_E.
+  change (mkSorted [] [] (Eo (opt_if uva (varargs outer))) [] (Eo (opt_if uvk (varkwargs outer))) [] [])
+    with (ES (mkSorted [] [] (opt_if uva (varargs outer)) [] (opt_if uvk (varkwargs outer)) [] [])).
+  rewrite (merger_E rho rho_inj).
+  destruct (merger inner _) as [i|e]; [|reflexivity].
+  cbn [res_map bind].
+  change (posargs (ES i)) with (map E (posargs i)).
+  change (pokargs (ES i)) with (map E (pokargs i)).
+  change (kwoargs (ES i)) with (map E (kwoargs i)).
+  change (varargs (ES i)) with (Eo (varargs i)).
+  change (varkwargs (ES i)) with (Eo (varkwargs i)).
+  change (ssrc (ES i)) with (ssrc i). change (sdep (ES i)) with (sdep i).
+  rewrite ?check_no_dupes_E.
+  destruct (check_no_dupes [] (posargs outer)) as [n1|e]; [|reflexivity]. cbn [bind].
+  rewrite ?check_no_dupes_E.
+  destruct (check_no_dupes n1 (pokargs outer)) as [n2|e]; [|reflexivity]. cbn [bind].
+  assert (Hvs : forall (o : option param) (m : srcmap),
+            match Eo o with Some p => if uva then src_pop m (pname p) else m | None => m end =
+            match o with Some p => if uva then src_pop m (pname p) else m | None => m end)
+    by (intros [q|] m; reflexivity).
+  assert (Hks : forall (o : option param) (m : srcmap),
+            match Eo o with Some p => if uvk then src_pop m (pname p) else m | None => m end =
+            match o with Some p => if uvk then src_pop m (pname p) else m | None => m end)
+    by (intros [q|] m; reflexivity).
+  rewrite Hvs, Hks. clear Hvs Hks.
+  destruct (posargs i) as [|ip0 ips] eqn:Epi; cbn [map].
+  - destruct (pokargs i) as [|ik0 iks] eqn:Epk; cbn [map].
+    + cbn [bind]. rewrite ?check_no_dupes_E.
+      destruct (check_no_dupes n2 []) as [n4|e]; [|reflexivity]. cbn [bind]. rewrite ?check_no_dupes_E.
+      destruct (check_no_dupes n4 (kwoargs outer)) as [n5|e]; [|reflexivity]. cbn [bind]. rewrite ?check_no_dupes_E.
+      destruct (check_no_dupes n5 (kwoargs i)) as [n6|e]; [|reflexivity]. cbn [bind res_map].
+      f_equal. unfold Annot.ES; cbn [posargs pokargs varargs kwoargs varkwargs ssrc sdep].
+      rewrite od_update2_E, ?app_nil_r. destruct uva, uvk; reflexivity.
+    + change (has_def (E ik0)) with (has_def ik0). destruct (has_def ik0); cbn [bind];
+        change (E ik0 :: map E iks) with (map E (ik0 :: iks));
+        rewrite ?clear_defaults_E, ?check_no_dupes_E;
+        (destruct (check_no_dupes n2 (ik0 :: iks)) as [n4|e]; [|reflexivity]); cbn [bind]; rewrite ?check_no_dupes_E;
+        (destruct (check_no_dupes n4 (kwoargs outer)) as [n5|e]; [|reflexivity]); cbn [bind]; rewrite ?check_no_dupes_E;
+        (destruct (check_no_dupes n5 (kwoargs i)) as [n6|e]; [|reflexivity]); cbn [bind res_map];
+        f_equal; unfold Annot.ES; cbn [posargs pokargs varargs kwoargs varkwargs ssrc sdep];
+        rewrite od_update2_E, <- !map_app; destruct uva, uvk; reflexivity.
+  - change (has_def (E ip0)) with (has_def ip0).
+    change (E ip0 :: map E ips) with (map E (ip0 :: ips)).
+    rewrite check_no_dupes_E.
+    destruct (check_no_dupes n2 (ip0 :: ips)) as [n3|e]; [|reflexivity]. cbn [bind].
+    rewrite ?check_no_dupes_E.
+    destruct (check_no_dupes n3 (pokargs i)) as [n4|e]; [|reflexivity]. cbn [bind]. rewrite ?check_no_dupes_E.
+    destruct (check_no_dupes n4 (kwoargs outer)) as [n5|e]; [|reflexivity]. cbn [bind]. rewrite ?check_no_dupes_E.
+    destruct (check_no_dupes n5 (kwoargs i)) as [n6|e]; [|reflexivity]. cbn [bind res_map].
+    f_equal. unfold Annot.ES; cbn [posargs pokargs varargs kwoargs varkwargs ssrc sdep].
+    rewrite od_update2_E, ?app_nil_l.
+    destruct (has_def ip0); rewrite ?map_kind_E, <- ?map_app, ?clear_defaults_E, <- ?map_app;
+      destruct uva, uvk; reflexivity.
+Qed.
+
+Lemma embed_steps_E ss : forall acc uva uvk depth,
+  embed_steps (ES acc) (map (eagerize rho) ss) uva uvk depth =
+  res_map ES (embed_steps acc ss uva uvk depth).
+Proof.
+  induction ss as [|s ss IH]; intros acc uva uvk depth; cbn [map embed_steps]; [reflexivity|].
+  rewrite (sort_params_E rho), embed_step_E.
+  destruct (embed_step acc (sort_params s) uva uvk depth) as [a|e]; cbn [res_map to_incompatible bind].
+  - apply IH.
+  - destruct e; reflexivity.
+Qed.
+
+Theorem embed_E ss uva uvk :
+  embed (map (eagerize rho) ss) uva uvk = res_map (eagerize rho) (embed ss uva uvk).
+Proof.
+  destruct ss as [|s0 ss]; cbn [map embed]; [reflexivity|].
+  rewrite (sort_params_E rho), embed_steps_E.
+  destruct (embed_steps (sort_params s0) ss uva uvk 1) as [acc|e]; cbn [res_map bind];
+    [apply (apply_params_E rho) | reflexivity].
+Qed.
+
+Theorem forwards_E o i n names0 ha hk uva uvk p :
+  forwards (eagerize rho o) (eagerize rho i) n names0 ha hk uva uvk p =
+  res_map (eagerize rho) (forwards o i n names0 ha hk uva uvk p).
+Proof.
+  unfold forwards.
+  assert (Hi : (if p then
+                  mkSig (map (fun q => match pkind q with VP | VK => q | _ => set_def (Some 0) q end)
+                             (params (eagerize rho i)))
+                        (ret (eagerize rho i)) (uret (eagerize rho i)) (srcs (eagerize rho i)) (deps (eagerize rho i))
+                else eagerize rho i) =
+               eagerize rho (if p then
+                  mkSig (map (fun q => match pkind q with VP | VK => q | _ => set_def (Some 0) q end) (params i))
+                        (ret i) (uret i) (srcs i) (deps i)
+                else i)).
+  { destruct p; [|reflexivity]. unfold eagerize; cbn [params ret uret srcs deps]. f_equal.
+    rewrite !map_map. apply map_ext. intros q. destruct (pkind q) eqn:Ek; unfold eagerize_param;
+      cbn [pkind pname pdef pann puann set_def]; rewrite ?Ek; reflexivity. }
+  rewrite Hi. clear Hi. rewrite (mask_E rho).
+  destruct (mask _ n names0 _) as [m|e]; cbn [res_map bind]; [|reflexivity].
+  change [eagerize rho o; eagerize rho m] with (map (eagerize rho) [o; m]).
+  apply embed_E.
+Qed.
+
+(* ---- automatic discovery (Model/Discover.v) ---- *)
+Definition Eres (r : resolved) : resolved :=
+  match r with RSig s p => RSig (eagerize rho s) p | other => other end.
+Definition Ecall (c : callinfo) : callinfo :=
+  mkCallInfo (ci_use_varargs c) (ci_use_varkwargs c) (ci_hide_args c) (ci_hide_kwargs c)
+             (ci_nargs c) (ci_kwnames c) (Eres (ci_res c)).
+
+Lemma forward_sigs_E own calls :
+  forward_sigs (eagerize rho own) (map Ecall calls) =
+  option_map (map (eagerize rho)) (forward_sigs own calls).
+Proof.
+  induction calls as [|c cs IH]; cbn [map forward_sigs]; [reflexivity|].
+  cbn [Ecall ci_use_varargs ci_use_varkwargs ci_hide_args ci_hide_kwargs ci_nargs ci_kwnames ci_res].
+  destruct (negb (ci_use_varargs c || ci_use_varkwargs c)); [exact IH|].
+  destruct (ci_res c) as [| |s p]; cbn [Eres]; try reflexivity.
+  destruct (p && Nat.eqb (ci_nargs c) 0); [reflexivity|].
+  rewrite forwards_E.
+  destruct (forwards own s _ _ _ _ _ _ p) as [r|e]; cbn [res_map]; [|reflexivity].
+  rewrite IH. destruct (forward_sigs own cs); reflexivity.
+Qed.
+
+Lemma has_star_E s : has_star (eagerize rho s) = has_star s.
+Proof.
+  unfold has_star, eagerize; cbn [params]. induction (params s) as [|p ps IH]; cbn [map existsb]; [reflexivity|].
+  rewrite IH. reflexivity.
+Qed.
+
+Lemma autoforwards_E own ha calls :
+  autoforwards (eagerize rho own) ha (map Ecall calls) =
+  option_map (eagerize rho) (autoforwards own ha calls).
+Proof.
+  unfold autoforwards. rewrite has_star_E, forward_sigs_E.
+  destruct (negb (has_star own)); [reflexivity|]. destruct (negb ha); [reflexivity|].
+  destruct (forward_sigs own calls) as [[|s ss]|]; cbn [option_map map]; try reflexivity.
+  change (eagerize rho s :: map (eagerize rho) ss) with (map (eagerize rho) (s :: ss)).
+  rewrite (merge_E rho rho_inj). destruct (merge (s :: ss)); reflexivity.
+Qed.
+
+Theorem discover_E own plain ha calls :
+  discover (eagerize rho own) (eagerize rho plain) ha (map Ecall calls) =
+  eagerize rho (discover own plain ha calls).
+Proof.
+  unfold discover. rewrite autoforwards_E. destruct (autoforwards own ha calls); reflexivity.
+Qed.
+End TwinInj.
+
+(* ------------------------------------------------------------------ *)
+(* Part C — the statements on what `evaluated` yields                  *)
+
+(* `observe g s` is exactly the evaluated signature, read off without the
+   wrappers: (name, kind, default, evaluated annotation) per parameter and the
+   evaluated return annotation *)
+Lemma observe_is_evaluated g s :
+  observe g s =
+  (map (fun p => (pname p, pkind p, pdef p, pann p)) (params (evaluated g s)), ret (evaluated g s)).
+Proof. unfold observe, evaluated; cbn [params ret]. rewrite map_map. reflexivity. Qed.
+
+Section ObsAny.
+Variable rho : N -> N.
+Variable g : genv.
+
+Lemma coherent_kind k p : coherent rho g p -> coherent rho g (set_kind k p).
+Proof. exact (fun H => H). Qed.
+Lemma coherent_def d p : coherent rho g p -> coherent rho g (set_def d p).
+Proof. exact (fun H => H). Qed.
+Lemma coherent_fresh x d : coherent rho g (mkParam x KO d None UEmpty).
+Proof. reflexivity. Qed.
+
+Lemma observe_res (x : res sigT) :
+  (forall r, x = Ok r -> coherent_sig rho g r) ->
+  res_map (observe g) (res_map (eagerize rho) x) = res_map (observe g) x.
+Proof.
+  destruct x as [r|e]; cbn [res_map]; [|reflexivity]. intros H. f_equal.
+  apply observe_eagerize. apply H. reflexivity.
+Qed.
+
+Lemma coherent_mask_gen s n h named pm r :
+  coherent_sig rho g s -> mask_gen s n h named pm = Ok r -> coherent_sig rho g r.
+Proof.
+  intros [Hp Hr] Em. destruct (mask_gen_ret _ _ _ _ _ _ Em) as [Er Eu]. split.
+  - eapply (mask_gen_P (coherent rho g)); [exact coherent_kind | exact coherent_def | exact coherent_fresh | exact Hp | exact Em].
+  - rewrite Er, Eu. exact Hr.
+Qed.
+
+(* mask / partial: no condition on rho whatsoever *)
+Theorem pep563_mask_gen s n h named pm : coherent_sig rho g s ->
+  res_map (observe g) (mask_gen (eagerize rho s) n h named pm) =
+  res_map (observe g) (mask_gen s n h named pm).
+Proof.
+  intros Hs. rewrite mask_gen_E. apply observe_res. intros r Er. eapply coherent_mask_gen; eauto.
+Qed.
+
+Theorem pep563_mask s n names0 h : coherent_sig rho g s ->
+  res_map (observe g) (mask (eagerize rho s) n names0 h) = res_map (observe g) (mask s n names0 h).
+Proof. apply pep563_mask_gen. Qed.
+
+Theorem pep563_sig_partial s n kw pobj : coherent_sig rho g s ->
+  res_map (observe g) (sig_partial (eagerize rho s) n kw pobj) =
+  res_map (observe g) (sig_partial s n kw pobj).
+Proof. apply pep563_mask_gen. Qed.
+End ObsAny.
+
+Section ObsInj.
+Variable rho : N -> N.
+Hypothesis rho_inj : injective rho.
+Variable g : genv.
+
+Lemma coherent_embed ss uva uvk r :
+  Forall (coherent_sig rho g) ss -> embed ss uva uvk = Ok r -> coherent_sig rho g r.
+Proof.
+  intros Hss Em. destruct ss as [|s0 ss]; [discriminate Em|].
+  destruct (embed_ret _ _ _ _ _ Em) as [Er Eu]. split.
+  - eapply (embed_P (coherent rho g)); [exact (coherent_kind rho g) | exact (coherent_def rho g) | exact (coherent_conc rho g) | | exact Em].
+    eapply Forall_impl; [|exact Hss]. intros s Hs; apply Hs.
+  - rewrite Er, Eu. inversion Hss as [|s' ss' Hs0 Hss']; subst. apply Hs0.
+Qed.
+
+Theorem pep563_embed ss uva uvk : Forall (coherent_sig rho g) ss ->
+  res_map (observe g) (embed (map (eagerize rho) ss) uva uvk) = res_map (observe g) (embed ss uva uvk).
+Proof.
+  intros Hss. rewrite (embed_E rho rho_inj). apply observe_res. intros r Er. eapply coherent_embed; eauto.
+Qed.
+
+Lemma coherent_forwards o i n names0 ha hk uva uvk p r :
+  coherent_sig rho g o -> coherent_sig rho g i ->
+  forwards o i n names0 ha hk uva uvk p = Ok r -> coherent_sig rho g r.
+Proof.
+  intros [Ho Hor] [Hi _] Ef. destruct (forwards_ret _ _ _ _ _ _ _ _ _ _ Ef) as [Er Eu]. split.
+  - eapply (forwards_P (coherent rho g));
+      [exact (coherent_kind rho g) | exact (coherent_def rho g) | exact (coherent_conc rho g)
+       | exact (coherent_fresh rho g) | exact Ho | exact Hi | exact Ef].
+  - rewrite Er, Eu. exact Hor.
+Qed.
+
+Theorem pep563_forwards o i n names0 ha hk uva uvk p :
+  coherent_sig rho g o -> coherent_sig rho g i ->
+  res_map (observe g) (forwards (eagerize rho o) (eagerize rho i) n names0 ha hk uva uvk p) =
+  res_map (observe g) (forwards o i n names0 ha hk uva uvk p).
+Proof.
+  intros Ho Hi. rewrite (forwards_E rho rho_inj). apply observe_res. intros r Er.
+  exact (coherent_forwards _ _ _ _ _ _ _ _ _ _ Ho Hi Er).
+Qed.
+
+(* every callee signature the discovery resolved is coherent *)
+Definition coherent_call (c : callinfo) : Prop :=
+  match ci_res c with RSig s _ => coherent_sig rho g s | _ => True end.
+
+Lemma coherent_forward_sigs own calls rs :
+  coherent_sig rho g own -> Forall coherent_call calls -> forward_sigs own calls = Some rs ->
+  Forall (fun r => coherent_sig rho g r /\ ret r = ret own /\ uret r = uret own) rs.
+Proof.
+  intros Hown Hcs. revert rs. induction Hcs as [|c cs Hc Hcs IH]; intros rs; cbn [forward_sigs].
+  - intros Ers; inversion Ers; constructor.
+  - destruct (negb (ci_use_varargs c || ci_use_varkwargs c)); [exact (IH rs)|].
+    unfold coherent_call in Hc. destruct (ci_res c) as [| |s p]; try discriminate.
+    destruct (p && Nat.eqb (ci_nargs c) 0); [discriminate|].
+    destruct (forwards own s _ _ _ _ _ _ p) as [r|e] eqn:Ef; [|discriminate].
+    destruct (forward_sigs own cs) as [rs'|]; [|discriminate].
+    intros Ers; inversion Ers; subst. constructor; [|apply IH; reflexivity].
+    split; [exact (coherent_forwards _ _ _ _ _ _ _ _ _ _ Hown Hc Ef) | exact (forwards_ret _ _ _ _ _ _ _ _ _ _ Ef)].
+Qed.
+
+Lemma coherent_discover own plain ha calls :
+  coherent_sig rho g own -> coherent_sig rho g plain -> Forall coherent_call calls ->
+  coherent_sig rho g (discover own plain ha calls).
+Proof.
+  intros Hown Hplain Hcs. unfold discover, autoforwards.
+  destruct (negb (has_star own)); [exact Hplain|]. destruct (negb ha); [exact Hplain|].
+  destruct (forward_sigs own calls) as [[|s ss]|] eqn:Efs; try exact Hplain.
+  destruct (merge (s :: ss)) as [r|e] eqn:Em; [|exact Hplain].
+  pose proof (coherent_forward_sigs _ _ _ Hown Hcs Efs) as Hrs.
+  destruct (merge_ret _ _ _ Em) as [Er Eu]. split.
+  - eapply (merge_P (coherent rho g)); [exact (coherent_kind rho g) | exact (coherent_conc rho g) | | exact Em].
+    eapply Forall_impl; [|exact Hrs]. intros x [[Hx _] _]; exact Hx.
+  - inversion Hrs as [|s' ss' [_ [Hsr Hsu]] _]; subst. rewrite Er, Eu, Hsr, Hsu. apply Hown.
+Qed.
+
+(* automatic discovery: forwards per call, merged over the calls, plain
+   signature as the fallback *)
+Theorem pep563_discover own plain ha calls :
+  coherent_sig rho g own -> coherent_sig rho g plain -> Forall coherent_call calls ->
+  observe g (discover (eagerize rho own) (eagerize rho plain) ha (map (Ecall rho) calls)) =
+  observe g (discover own plain ha calls).
+Proof.
+  intros Hown Hplain Hcs. rewrite (discover_E rho rho_inj). apply observe_eagerize.
+  apply coherent_discover; assumption.
+Qed.
+End ObsInj.
+
+(* ------------------------------------------------------------------ *)
+(* Part D — on function descriptions: postponed originals vs eager twins *)
+Section TwinsD.
+Variable rho : N -> N.
+Hypothesis rho_inj : injective rho.
+Variable g : genv.
+
+Lemma map_up_twins ds : Forall (twin_ok rho g) ds ->
+  map up (map (eager_twin g) ds) = map (eagerize rho) (map up ds).
+Proof.
+  intros H. rewrite !map_map. apply map_ext_in. intros d Hd.
+  apply up_eager_twin. rewrite Forall_forall in H. apply H; exact Hd.
+Qed.
+
+Lemma coherent_ups ds : Forall (twin_ok rho g) ds -> Forall (coherent_sig rho g) (map up ds).
+Proof.
+  intros H. apply Forall_forall. intros s Hs. apply in_map_iff in Hs. destruct Hs as [d [Hd Hin]]. subst s.
+  apply up_coherent. rewrite Forall_forall in H. apply H; exact Hin.
+Qed.
+
+Theorem twin_embed ds uva uvk : Forall (twin_ok rho g) ds ->
+  res_map (observe g) (embed (map up (map (eager_twin g) ds)) uva uvk) =
+  res_map (observe g) (embed (map up ds) uva uvk).
+Proof.
+  intros H. rewrite (map_up_twins ds H). apply (pep563_embed rho rho_inj). apply coherent_ups; exact H.
+Qed.
+
+Theorem twin_forwards d0 d1 n names0 ha hk uva uvk p : twin_ok rho g d0 -> twin_ok rho g d1 ->
+  res_map (observe g) (forwards (up (eager_twin g d0)) (up (eager_twin g d1)) n names0 ha hk uva uvk p) =
+  res_map (observe g) (forwards (up d0) (up d1) n names0 ha hk uva uvk p).
+Proof.
+  intros H0 H1. rewrite (up_eager_twin rho g d0 H0), (up_eager_twin rho g d1 H1).
+  apply (pep563_forwards rho rho_inj); apply up_coherent; assumption.
+Qed.
+
+(* the calls automatic discovery found, each with the description of the
+   callee it resolved to and whether it went through functools.partial; tw is
+   applied to the callee's description *)
+Definition calls_of (tw : fdesc -> fdesc) (cs : list (callinfo * fdesc * bool)) : list callinfo :=
+  map (fun x : callinfo * fdesc * bool =>
+         let '(c, d, p) := x in
+         mkCallInfo (ci_use_varargs c) (ci_use_varkwargs c) (ci_hide_args c) (ci_hide_kwargs c)
+                    (ci_nargs c) (ci_kwnames c) (RSig (up (tw d)) p)) cs.
+
+Theorem twin_discover d_own d_plain ha cs :
+  twin_ok rho g d_own -> twin_ok rho g d_plain ->
+  Forall (fun x : callinfo * fdesc * bool => twin_ok rho g (snd (fst x))) cs ->
+  observe g (discover (up (eager_twin g d_own)) (up (eager_twin g d_plain)) ha (calls_of (eager_twin g) cs)) =
+  observe g (discover (up d_own) (up d_plain) ha (calls_of (fun d => d) cs)).
+Proof.
+  intros Hown Hplain Hcs.
+  rewrite (up_eager_twin rho g d_own Hown), (up_eager_twin rho g d_plain Hplain).
+  assert (Hc : calls_of (eager_twin g) cs = map (Ecall rho) (calls_of (fun d => d) cs)).
+  { unfold calls_of. rewrite map_map. apply map_ext_in. intros [[c d] p] Hin.
+    unfold Ecall; cbn [ci_use_varargs ci_use_varkwargs ci_hide_args ci_hide_kwargs ci_nargs ci_kwnames ci_res Eres].
+    rewrite Forall_forall in Hcs. rewrite (up_eager_twin rho g d (Hcs _ Hin)). reflexivity. }
+  rewrite Hc. apply (pep563_discover rho rho_inj).
+  - apply up_coherent; exact Hown.
+  - apply up_coherent; exact Hplain.
+  - unfold calls_of. apply Forall_forall. intros c Hin. apply in_map_iff in Hin.
+    destruct Hin as [[[c0 d] p] [Hc0 Hin]]. subst c. unfold coherent_call; cbn [ci_res].
+    apply up_coherent. rewrite Forall_forall in Hcs. exact (Hcs _ Hin).
+Qed.
+End TwinsD.
+
+(* mask / partial of ONE function: nothing to assume beyond "compiled with the
+   future flag and every spelling is bound in its globals" *)
+Definition bound_ok (g : genv) (d : fdesc) : Prop :=
+  let '(fl, f, rps, rr) := d in
+  fl = Some true /\
+  (forall x k dd a, In (x, k, dd, Some a) rps -> g f a <> None) /\
+  (forall a, rr = Some a -> g f a <> None).
+
+Definition rho_of (g : genv) (d : fdesc) : N -> N :=
+  let '(fl, f, rps, rr) := d in fun a => match g f a with Some v => v | None => 0 end.
+
+Lemma bound_twin_ok g d : bound_ok g d -> twin_ok (rho_of g d) g d.
+Proof.
+  destruct d as [[[fl f] rps] rr]. intros [Hfl [Hp Hr]]. unfold twin_ok, rho_of. split; [exact Hfl|]. split.
+  - intros x k dd a Hin. specialize (Hp x k dd a Hin). destruct (g f a); [reflexivity | contradiction].
+  - intros a Ha. specialize (Hr a Ha). destruct (g f a); [reflexivity | contradiction].
+Qed.
+
+Theorem twin_mask_gen g d n h named pm : bound_ok g d ->
+  res_map (observe g) (mask_gen (up (eager_twin g d)) n h named pm) =
+  res_map (observe g) (mask_gen (up d) n h named pm).
+Proof.
+  intros H. pose proof (bound_twin_ok g d H) as Ht.
+  rewrite (up_eager_twin _ g d Ht). apply pep563_mask_gen. apply up_coherent. exact Ht.
+Qed.
+
+Theorem twin_mask g d n names0 h : bound_ok g d ->
+  res_map (observe g) (mask (up (eager_twin g d)) n names0 h) = res_map (observe g) (mask (up d) n names0 h).
+Proof. apply twin_mask_gen. Qed.
+
+Theorem twin_sig_partial g d n kw pobj : bound_ok g d ->
+  res_map (observe g) (sig_partial (up (eager_twin g d)) n kw pobj) =
+  res_map (observe g) (sig_partial (up d) n kw pobj).
+Proof. apply twin_mask_gen. Qed.
+
+(* ---- without the hypotheses on rho the embed / forwards statements are false ---- *)
+Definition ds_e1 : list fdesc :=
+  [(Some true, 100, [(9, VP, None, Some 500)], None); (Some true, 101, [(9, VP, None, Some 500)], None)].
+Definition ds_e2 : list fdesc :=
+  [(Some true, 100, [(9, VP, None, Some 500)], None); (Some true, 101, [(9, VP, None, Some 502)], None)].
+
+(* one spelling, two objects: the inner star annotation survives postponed, is dropped eager *)
+Theorem embed_twin_refuted_same_spelling :
+  res_map (observe g_w1) (embed (map up ds_e1) true true) = Ok ([(9, VP, None, Some 2)], None) /\
+  res_map (observe g_w1) (embed (map up (map (eager_twin g_w1) ds_e1)) true true) = Ok ([(9, VP, None, None)], None).
+Proof. split; vm_compute; reflexivity. Qed.
+
+(* two spellings of one object: dropped postponed, kept eager *)
+Theorem embed_twin_refuted_two_spellings :
+  res_map (observe g_w2) (embed (map up ds_e2) true true) = Ok ([(9, VP, None, None)], None) /\
+  res_map (observe g_w2) (embed (map up (map (eager_twin g_w2) ds_e2)) true true) = Ok ([(9, VP, None, Some 1)], None).
+Proof. split; vm_compute; reflexivity. Qed.
+
+Ltac solve_bound :=
+  unfold bound_ok; split;
+  [ reflexivity
+  | split;
+    [ intros ? ? ? ? Hin; cbn [In] in Hin;
+      repeat (destruct Hin as [Hin|Hin]; [inversion Hin; subst; vm_compute; discriminate|]); contradiction
+    | intros ? Ha; first [discriminate Ha | inversion Ha; subst; vm_compute; discriminate] ] ].
+
+Theorem embed_twin_refuted :
+  exists g ds uva uvk, Forall (bound_ok g) ds /\
+    res_map (observe g) (embed (map up (map (eager_twin g) ds)) uva uvk) <>
+    res_map (observe g) (embed (map up ds) uva uvk).
+Proof.
+  exists g_w1, ds_e1, true, true. split.
+  - constructor; [solve_bound|]. constructor; [solve_bound|]. constructor.
+  - destruct embed_twin_refuted_same_spelling as [E1 E2]. rewrite E1, E2. discriminate.
+Qed.
+
+Theorem forwards_twin_refuted :
+  exists g d0 d1, bound_ok g d0 /\ bound_ok g d1 /\
+    res_map (observe g) (forwards (up (eager_twin g d0)) (up (eager_twin g d1)) 0 [] false false true true false) <>
+    res_map (observe g) (forwards (up d0) (up d1) 0 [] false false true true false).
+Proof.
+  exists g_w1, (Some true, 100, [(1, PK, None, None); (9, VP, None, Some 500)], None),
+         (Some true, 101, [(2, PK, None, Some 500); (9, VP, None, Some 500)], None).
+  split; [|split].
+  - solve_bound.
+  - solve_bound.
+  - vm_compute. discriminate.
+Qed.
+
+(* ------------------------------------------------------------------ *)
+(* Part E — injectivity is only needed on the spellings that occur      *)
+Definition inj_on (S : list N) (rho : N -> N) : Prop :=
+  forall a b, In a S -> In b S -> rho a = rho b -> a = b.
+
+(* every raw annotation of s is listed in S *)
+Definition raws_in (S : list N) (s : sigT) : Prop :=
+  (forall p a, In p (params s) -> pann p = Some a -> In a S) /\ (forall a, ret s = Some a -> In a S).
+
+Lemma mem_In_N x l : mem x l = true <-> In x l.
+Proof.
+  induction l as [|y l IH]; cbn [mem In]; [split; [discriminate | contradiction]|].
+  rewrite orb_true_iff, IH, N.eqb_eq. split; intros [H|H]; auto.
+Qed.
+
+Definition bound_of (rho : N -> N) (S : list N) : N := fold_right N.max 0 (map rho S).
+
+Lemma bound_of_ge rho S a : In a S -> rho a <= bound_of rho S.
+Proof.
+  unfold bound_of. induction S as [|y S IH]; cbn [In map fold_right]; [contradiction|].
+  intros [H|H]; [subst; lia | specialize (IH H); lia].
+Qed.
+
+(* a globally injective environment that agrees with rho on S *)
+Definition globalized (rho : N -> N) (S : list N) : N -> N :=
+  fun x => if mem x S then rho x else x + bound_of rho S + 1.
+
+Lemma globalized_agrees rho S a : In a S -> globalized rho S a = rho a.
+Proof. intros H. unfold globalized. apply mem_In_N in H. rewrite H. reflexivity. Qed.
+
+Lemma globalized_inj rho S : inj_on S rho -> injective (globalized rho S).
+Proof.
+  intros Hinj a b H. unfold globalized in H.
+  destruct (mem a S) eqn:Ea, (mem b S) eqn:Eb.
+  - apply mem_In_N in Ea. apply mem_In_N in Eb. apply Hinj; assumption.
+  - apply mem_In_N in Ea. pose proof (bound_of_ge rho S a Ea). lia.
+  - apply mem_In_N in Eb. pose proof (bound_of_ge rho S b Eb). lia.
+  - lia.
+Qed.
+
+Lemma eagerize_param_ext rho rho' p :
+  (forall a, pann p = Some a -> rho' a = rho a) -> eagerize_param rho' p = eagerize_param rho p.
+Proof.
+  intros H. unfold eagerize_param. destruct (pann p) as [a|]; cbn [option_map]; [|reflexivity].
+  rewrite (H a eq_refl). reflexivity.
+Qed.
+
+Lemma eagerize_ext rho rho' S s :
+  (forall a, In a S -> rho' a = rho a) -> raws_in S s -> eagerize rho' s = eagerize rho s.
+Proof.
+  intros Hag [Hp Hr]. unfold eagerize. f_equal.
+  - apply map_ext_in. intros p Hin. apply eagerize_param_ext. intros a Ha. apply Hag. eapply Hp; eauto.
+  - destruct (ret s) as [a|]; cbn [option_map]; [|reflexivity]. rewrite (Hag a (Hr a eq_refl)). reflexivity.
+  - destruct (ret s) as [a|]; [|reflexivity]. rewrite (Hag a (Hr a eq_refl)). reflexivity.
+Qed.
+
+Lemma coherent_sig_ext rho rho' S g s :
+  (forall a, In a S -> rho' a = rho a) -> raws_in S s -> coherent_sig rho g s -> coherent_sig rho' g s.
+Proof.
+  intros Hag [Hp Hr] [Hc Hcr]. split.
+  - apply Forall_forall. intros p Hin. rewrite Forall_forall in Hc. specialize (Hc p Hin).
+    unfold coherent in *. rewrite Hc. destruct (pann p) as [a|] eqn:Ea; cbn [option_map]; [|reflexivity].
+    rewrite (Hag a (Hp p a Hin Ea)). reflexivity.
+  - rewrite Hcr. destruct (ret s) as [a|]; cbn [option_map]; [|reflexivity].
+    rewrite (Hag a (Hr a eq_refl)). reflexivity.
+Qed.
+
+Section Local.
+Variable S : list N.
+Variable rho : N -> N.
+Hypothesis rho_inj_on : inj_on S rho.
+Variable g : genv.
+Let rho' := globalized rho S.
+Let agrees : forall a, In a S -> rho' a = rho a := globalized_agrees rho S.
+Let rho'_inj : injective rho' := globalized_inj rho S rho_inj_on.
+
+Lemma map_eagerize_local ss : Forall (raws_in S) ss -> map (eagerize rho) ss = map (eagerize rho') ss.
+Proof.
+  intros H. apply map_ext_in. intros s Hs. symmetry. apply (eagerize_ext rho rho' S s agrees).
+  rewrite Forall_forall in H. apply H; exact Hs.
+Qed.
+
+Lemma coherent_local ss : Forall (raws_in S) ss -> Forall (coherent_sig rho g) ss ->
+  Forall (coherent_sig rho' g) ss.
+Proof.
+  intros Hr Hc. apply Forall_forall. intros s Hs. rewrite Forall_forall in Hr, Hc.
+  apply (coherent_sig_ext rho rho' S g s agrees (Hr s Hs) (Hc s Hs)).
+Qed.
+
+Theorem pep563_merge_local ss : Forall (raws_in S) ss -> Forall (coherent_sig rho g) ss ->
+  res_map (observe g) (merge (map (eagerize rho) ss)) = res_map (observe g) (merge ss).
+Proof.
+  intros Hr Hc. rewrite (map_eagerize_local ss Hr).
+  apply (pep563_merge rho' rho'_inj). apply coherent_local; assumption.
+Qed.
+
+Theorem pep563_embed_local ss uva uvk : Forall (raws_in S) ss -> Forall (coherent_sig rho g) ss ->
+  res_map (observe g) (embed (map (eagerize rho) ss) uva uvk) = res_map (observe g) (embed ss uva uvk).
+Proof.
+  intros Hr Hc. rewrite (map_eagerize_local ss Hr).
+  apply (pep563_embed rho' rho'_inj). apply coherent_local; assumption.
+Qed.
+
+Theorem pep563_forwards_local o i n names0 ha hk uva uvk p :
+  raws_in S o -> raws_in S i -> coherent_sig rho g o -> coherent_sig rho g i ->
+  res_map (observe g) (forwards (eagerize rho o) (eagerize rho i) n names0 ha hk uva uvk p) =
+  res_map (observe g) (forwards o i n names0 ha hk uva uvk p).
+Proof.
+  intros Hro Hri Ho Hi.
+  rewrite <- (eagerize_ext rho rho' S o agrees Hro), <- (eagerize_ext rho rho' S i agrees Hri).
+  apply (pep563_forwards rho' rho'_inj); eapply coherent_sig_ext; eauto.
+Qed.
+
+Definition raws_in_call (c : callinfo) : Prop :=
+  match ci_res c with RSig s _ => raws_in S s | _ => True end.
+
+Theorem pep563_discover_local own plain ha calls :
+  raws_in S own -> raws_in S plain -> Forall raws_in_call calls ->
+  coherent_sig rho g own -> coherent_sig rho g plain -> Forall (coherent_call rho g) calls ->
+  observe g (discover (eagerize rho own) (eagerize rho plain) ha (map (Ecall rho) calls)) =
+  observe g (discover own plain ha calls).
+Proof.
+  intros Hro Hrp Hrc Ho Hp Hc.
+  rewrite <- (eagerize_ext rho rho' S own agrees Hro), <- (eagerize_ext rho rho' S plain agrees Hrp).
+  assert (Hm : map (Ecall rho) calls = map (Ecall rho') calls).
+  { apply map_ext_in. intros c Hin. rewrite Forall_forall in Hrc. specialize (Hrc c Hin).
+    unfold raws_in_call in Hrc. unfold Ecall. destruct (ci_res c) as [| |s p]; cbn [Eres]; try reflexivity.
+    rewrite (eagerize_ext rho rho' S s agrees Hrc). reflexivity. }
+  rewrite Hm. apply (pep563_discover rho' rho'_inj).
+  - eapply coherent_sig_ext; eauto.
+  - eapply coherent_sig_ext; eauto.
+  - apply Forall_forall. intros c Hin. rewrite Forall_forall in Hrc, Hc.
+    specialize (Hrc c Hin). specialize (Hc c Hin). unfold raws_in_call in Hrc. unfold coherent_call in *.
+    destruct (ci_res c) as [| |s p]; try exact I. eapply coherent_sig_ext; eauto.
+Qed.
+End Local.
+
+(* ------------------------------------------------------------------ *)
+(* the hypotheses are satisfiable on non-trivial inputs                 *)
+Definition g_ex : genv := fun f raw => Some (raw + 1).
+Definition d_outer : fdesc :=
+  (Some true, 100, [(1, PK, None, Some 500); (9, VP, None, Some 501); (10, VK, None, None)], Some 502).
+Definition d_inner : fdesc :=
+  (Some true, 101, [(2, PK, None, Some 501); (3, KO, Some 1, Some 500); (9, VP, None, Some 501)], Some 500).
+
+Example twin_embed_hyp_sat :
+  injective (fun x : N => x + 1) /\
+  Forall (twin_ok (fun x => x + 1) g_ex) [d_outer; d_inner] /\
+  res_map (observe g_ex) (embed (map up [d_outer; d_inner]) true true) =
+  Ok ([(1, PK, None, Some 501); (2, PK, None, Some 502); (9, VP, None, Some 502); (3, KO, Some 1, Some 501)],
+      Some 503).
+Proof.
+  split; [intros a b H; lia|]. split; [|vm_compute; reflexivity].
+  repeat constructor; cbn; intros; try reflexivity.
+Qed.
+
+Example twin_forwards_hyp_sat :
+  twin_ok (fun x => x + 1) g_ex d_outer /\ twin_ok (fun x => x + 1) g_ex d_inner /\
+  exists r, forwards (up d_outer) (up d_inner) 0 [3] false false true true false = Ok r.
+Proof.
+  split; [|split]; [repeat constructor; cbn; intros; reflexivity ..|].
+  eexists. vm_compute. reflexivity.
+Qed.
+
+Example twin_discover_hyp_sat :
+  exists r,
+    discover (up d_outer) (up d_outer) true
+             (calls_of (fun d => d) [(mkCallInfo true true false false 0 [] RNoSig, d_inner, false)]) = r /\
+    length (params r) = 4%nat.
+Proof. eexists. split; [reflexivity | vm_compute; reflexivity]. Qed.
+
+(* mask needs nothing: even the environment of the first refutation witness *)
+Example twin_mask_hyp_sat :
+  bound_ok g_w1 (Some true, 101, [(1, PK, None, Some 500); (2, PK, None, Some 500)], Some 500) /\
+  res_map (observe g_w1) (mask (up (Some true, 101, [(1, PK, None, Some 500); (2, PK, None, Some 500)], Some 500)) 1 [] (mkHide false false false false)) =
+  Ok ([(2, PK, None, Some 2)], Some 2).
+Proof. split; [solve_bound | vm_compute; reflexivity]. Qed.
+
+(* an environment that is injective on the spellings used but not globally *)
+Example local_hyp_sat :
+  inj_on [500; 501; 502] (fun x => x - 499) /\ ~ injective (fun x => x - 499) /\
+  Forall (raws_in [500; 501; 502]) (map up [d_outer; d_inner]).
+Proof.
+  split; [|split].
+  - intros a b Ha Hb H. cbn [In] in Ha, Hb.
+    destruct Ha as [Ha|[Ha|[Ha|[]]]], Hb as [Hb|[Hb|[Hb|[]]]]; subst; try reflexivity; vm_compute in H; discriminate H.
+  - intros H. specialize (H 0 1 eq_refl). discriminate H.
+  - cbn [map]. constructor; [|constructor; [|constructor]];
+      (split;
+       [ intros p a Hin Ha; cbn in Hin;
+         repeat (destruct Hin as [Hin|Hin];
+                 [subst p; cbn in Ha; first [discriminate Ha | inversion Ha; subst; cbn; tauto]|]);
+         contradiction
+       | intros a Ha; cbn in Ha; inversion Ha; subst; cbn; tauto ]).
+Qed.
+
+Print Assumptions mask_gen_E.
+Print Assumptions embed_E.
+Print Assumptions forwards_E.
+Print Assumptions discover_E.
+Print Assumptions pep563_mask_gen.
+Print Assumptions pep563_mask.
+Print Assumptions pep563_sig_partial.
+Print Assumptions pep563_embed.
+Print Assumptions pep563_forwards.
+Print Assumptions pep563_discover.
+Print Assumptions twin_embed.
+Print Assumptions twin_forwards.
+Print Assumptions twin_discover.
+Print Assumptions twin_mask_gen.
+Print Assumptions twin_mask.
+Print Assumptions twin_sig_partial.
+Print Assumptions embed_twin_refuted_same_spelling.
+Print Assumptions embed_twin_refuted_two_spellings.
+Print Assumptions embed_twin_refuted.
+Print Assumptions forwards_twin_refuted.
+Print Assumptions globalized_inj.
+Print Assumptions pep563_merge_local.
+Print Assumptions pep563_embed_local.
+Print Assumptions pep563_forwards_local.
+Print Assumptions pep563_discover_local.
+Print Assumptions observe_is_evaluated.
